@@ -275,6 +275,11 @@ func (c c14) Execute(p *core.Plan) *core.Result {
 				}
 			case 14: // tiny S: A = identity, R = [s]B, S = s is valid; S = s + L must be refused
 				ident := core.Unhex(smallOrder[0])
+				// canonical S at the top of the range: 2^252 .. L-1 (valid; the top byte has bit 4 set)
+				for _, bigS := range []*big.Int{new(big.Int).Lsh(big.NewInt(1), 252), new(big.Int).Add(new(big.Int).Lsh(big.NewInt(1), 252), big.NewInt(5)), new(big.Int).Sub(ref.EdL, big.NewInt(1)), new(big.Int).Sub(ref.EdL, big.NewInt(2))} {
+					R := ref.EdScalarMult(bigS, ref.EdBase()).Encode()
+					verdict("large-canonical-S", ident, msg, append(append([]byte(nil), R...), intLE(bigS, 32)...), si)
+				}
 				for sv := int64(0); sv < 40; sv++ {
 					R := ref.EdScalarMult(big.NewInt(sv), ref.EdBase()).Encode()
 					okSig := append(append([]byte(nil), R...), intLE(big.NewInt(sv), 32)...)
